@@ -39,8 +39,9 @@ LEVEL = {
     "not_decided": "that the items delivered before the failure equal the standard library's (value-level, C01 "
                    "residual); identity of the exception object rests on Python's propagation once no handler "
                    "intercepts it.",
-    "technique": "static analysis: exception-handler census and exceptional-path reachability on the CFG",
+    "technique": "static analysis: exception-handler census and exceptional-path reachability on the CFG; consumption tables by abstract evaluation",
 }
+LEVEL["decided"] += " (R06.8/R06.9) the tool tables and the islice table, shared: the library runs the source and the user's callables exactly as often as the stdlib counterpart, so an error raised by the k-th pull or call surfaces in both or in neither."
 
 H4_UNITS = {"contextlib._AsyncGeneratorContextManager.__aenter__", "contextlib._AsyncGeneratorContextManager.__aexit__"}
 H5_UNITS = {"contextlib.ExitStack.__aexit__"}
